@@ -11,7 +11,8 @@ LEAN_MODULES = ["PptxModel.Props.C11", "PptxModel.GenProps.C11"]
 RULE = (
     "every (simple-type class, schema simple type) pair reached through an attribute declaration of a registered "
     "element class (reflection) x {measured accept bounds and one quantum inside/outside, 0, +-1, int32/int64/uint32 "
-    "bounds, floats at k+1/2 quanta +- 1 ulp, wrong Python types (None, str, float for int types, bool, list)} for "
+    "bounds, floats at k+1/2 quanta +- 1 ulp, wrong Python types (None, str, float for int types, bool, list), int "
+    "subclasses with their own __str__ (enum members, Length)} for "
     "writing: the written string is validated by lxml against the attribute's XSD simple type; rejected values must "
     "raise TypeError/ValueError; for reading: every lexical alternative the schema type admits (bounds, '+5', ' 5 ', "
     "'N%', '1.5pt'.., true/false/1/0, every enumeration token) must be read; read(write(v)) within the type's quantum.  "
@@ -177,6 +178,10 @@ def write_values(st, xt, si, iv, fac):
             -27273042329600, -27273042329601, 0.0, 1.0, 0.5, -0.5, 100.0, 360.0, 359.99999, 359.9999999, -1e-7, 1e-7,
             21474.83647, 21474.83648, -21474.83648, 132.0, 132.000001, 1.00001, 0.999999, 99.9999, 100.0001,
             "FF00aa", "ff00a", "GG0000", "+1234a", " 12345", "0x1234", "1_2345", "", "tx", "norm"]
+    # int subclasses with their own __str__: members of the library's int-valued enumerations, Length objects
+    from pptx.enum.text import MSO_ANCHOR, PP_ALIGN
+    from pptx.util import Emu
+    vals += [MSO_ANCHOR.MIDDLE, PP_ALIGN.CENTER, Emu(3), Emu(914400)]
     if iv:
         for b in iv:
             if b is not None:
